@@ -157,4 +157,63 @@ def gridIntersectGeneral (dstCand : List (Int × Int)) (dstDisjoint : Int × Int
   (dstCand.filter fun d => !dstDisjoint d).map fun d =>
     (d, (srcCand d).filter fun s => !srcDisjoint d s)
 
+/-! ### world-space boxes  (geobox.py:1411-1418, 377-395)
+
+`range_from_bbox` / `tiles` given a box *with* CRS first bring it to pixel space:
+`self._gbox.project(bbox.polygon).boundingbox` – the four corners of the box go through the
+CRS transformation (`proj`, pyproj; the identity when the CRSs agree) and through `~affine`, and
+the bounding box of the four images is taken. -/
+
+/-- corners of a box, as `BoundingBox.polygon` / `.points` give them -/
+def BBox.corners (b : BBox) : List (Rat × Rat) :=
+  [(b.x1, b.y1), (b.x1, b.y2), (b.x2, b.y1), (b.x2, b.y2)]
+
+/-- bounding box of the images of the four corners under an arbitrary map -/
+def BBox.mapCorners (b : BBox) (f : Rat × Rat → Rat × Rat) : BBox :=
+  let p1 := f (b.x1, b.y1)
+  let p2 := f (b.x1, b.y2)
+  let p3 := f (b.x2, b.y1)
+  let p4 := f (b.x2, b.y2)
+  ⟨min4 p1.1 p2.1 p3.1 p4.1, min4 p1.2 p2.2 p3.2 p4.2,
+   max4 p1.1 p2.1 p3.1 p4.1, max4 p1.2 p2.2 p3.2 p4.2⟩
+
+/-- `GeoBox.project(bbox.polygon).boundingbox`: `W` is the pixel-to-world affine of the raster,
+`proj` the CRS transformation of the box's CRS into the raster's (identity for the same CRS);
+a degenerate affine raises. -/
+def projectBBox (W : Aff) (proj : Rat × Rat → Rat × Rat) (b : BBox) : Res BBox := do
+  let inv ← W.inv?
+  return b.mapCorners fun p => inv.apply (proj p)
+
+/-- `range_from_bbox(bbox)` for a box carrying a CRS -/
+def rangeFromBBoxWorld (g : GBT) (W : Aff) (proj : Rat × Rat → Rat × Rat) (b : BBox) :
+    Res ((Int × Int) × (Int × Int)) := do
+  let pb ← projectBBox W proj b
+  rangeFromBBox g pb
+
+/-- candidates of `tiles(query)` for a query with bounding box `b` (in the raster's CRS after
+`poly.to_crs`, so `proj` is the identity there) -/
+def candidatesWorld (g : GBT) (W : Aff) (proj : Rat × Rat → Rat × Rat) (b : BBox) :
+    Res (List (Int × Int)) := do
+  let pb ← projectBBox W proj b
+  candidates g pb
+
+/-- `GeoboxTiles.tiles(geometry)` in world space: `range ∩ not-disjoint` -/
+def tilesGeomWorld (g : GBT) (W : Aff) (b : BBox) (disjoint : Int × Int → Bool) :
+    Res (List (Int × Int)) := do
+  let c ← candidatesWorld g W id b
+  return c.filter fun idx => !disjoint idx
+
+/-! ### the general path with its candidate ranges  (geobox.py:1507-1526)
+
+`fp` is the bounding box (destination pixel space) of the source footprint handed to
+`self.tiles`, `ext d` the bounding box (source pixel space) of the extent of destination tile
+`d` handed to `src.tiles`; shapely's verdicts are parameters. -/
+def gridIntersectGeneralR (dst src : GBT) (fp : BBox) (dstDisjoint : Int × Int → Bool)
+    (ext : Int × Int → BBox) (srcDisjoint : Int × Int → Int × Int → Bool) :
+    Res (List ((Int × Int) × List (Int × Int))) := do
+  let dc ← candidates dst fp
+  (dc.filter fun d => !dstDisjoint d).mapM fun d => do
+    let sc ← candidates src (ext d)
+    return (d, sc.filter fun s => !srcDisjoint d s)
+
 end OdcGeo.C12
